@@ -49,6 +49,10 @@ def collect(prog):
                 stmt(f, True)
             for m in s["methods"]:
                 stmt(m)
+        elif k == "with":
+            if s["a"]:
+                add("var", s["a"])
+            block(s["b"])
         elif k == "if":
             block(s["t"])
             block(s["e"])
@@ -97,6 +101,10 @@ def apply(prog, m):
         k = x.get("k")
         if k == "raw":
             x["v"] = IDENT.sub(lambda mo: m.get(mo.group(0), mo.group(0)), x["v"])
+        if k == "with":
+            x["r"] = r(x["r"])
+            if x["a"]:
+                x["a"] = r(x["a"])
         for key in ("n", "f", "c", "m"):
             if key in x and isinstance(x[key], str):
                 if key == "f" and k not in ("call", "fassign", "faug"):
